@@ -614,6 +614,10 @@ func (vfs *OrefaFS) OpenFile(name string, flag int, perm fs.FileMode) (avfs.File
 
 	if childOk {
 		if child.mode.IsDir() {
+			if om&avfs.OpenCreateExcl != 0 {
+				return (*OrefaFile)(nil), &fs.PathError{Op: op, Path: name, Err: vfs.err.FileExists}
+			}
+
 			if om&avfs.OpenWrite != 0 {
 				return (*OrefaFile)(nil), &fs.PathError{Op: op, Path: name, Err: vfs.err.IsADirectory}
 			}
